@@ -21,6 +21,12 @@ class C12:
         for i in range(n):
             f = pf.tcp_history(rng, blocks[i])
             cases.append(f.s.case("g%d" % i, {"kind": "tcp-history"}))
+        # a few histories in REAL time: 61 s pass while transactions are open, so that the next look-up runs the transport
+        # table's clean-up pass (once a minute at most); the registrations of inbound connections live for an hour
+        nlong = 3 if tier == "quick" else 16
+        for i, b in enumerate(pg.alloc_blocks(nlong)):
+            f = pf.tcp_history(rng, b, {"cleanpass": True, "deaths": 0.0})
+            cases.append(f.s.case("cp%d" % i, {"kind": "tcp-history-clean-pass"}))
 
         def nontrivial(c, ni):
             return sum(1 for o, _ in ni for l, _ in o if l.startswith(b"conn:")) >= 2
